@@ -220,6 +220,7 @@ func runC05(e *Env) error {
 	})
 	if e.Replay == "" {
 		c05Renames(e, pool)
+		c05KeyChange(e, pool)
 		c05CLI(e)
 	}
 	return nil
@@ -471,7 +472,22 @@ func c05Model(pool *hx.Pool, mt *schema.ModifyTable, plan *migrate.Plan, add fun
 		return
 	}
 	if stmt == "" {
-		return // in-place path, or nothing to copy
+		// in-place path, or nothing to copy - unless the plan does rebuild the table: then the rows are copied by a
+		// plain `INSERT INTO new_T (...) SELECT ... FROM T` (no OR IGNORE / OR REPLACE, which drop rows silently)
+		rebuilt := false
+		for _, pc := range plan.Changes {
+			if strings.HasPrefix(pc.Cmd, "CREATE TABLE `new_"+mt.T.Name+"`") {
+				rebuilt = true
+			}
+		}
+		if rebuilt && len(ans.To) > 0 {
+			var cmds []string
+			for _, pc := range plan.Changes {
+				cmds = append(cmds, pc.Cmd)
+			}
+			add("failing-input", "copy-statement-not-a-plain-insert", fmt.Sprintf("table %s is rebuilt and has columns to copy (model: %v), but the plan holds no plain INSERT INTO `new_%s` (...) SELECT ... FROM `%s`: %s", mt.T.Name, ans.To, mt.T.Name, mt.T.Name, trunc(strings.Join(cmds, "; "), 500)), "Props.C05 row_count_preserved (copy statement)")
+		}
+		return
 	}
 	m := reCopy.FindStringSubmatch(stmt)
 	toC, fromC := splitTop(m[2]), splitTop(m[3])
